@@ -525,15 +525,22 @@ class Doist(tyming.Tymist):
         """
         rdoers = [doer for doer in doers if doer in self.doers] # ensure in .doers
         rdeeds = deque()  # fresh deque for deeds to remove
+        ldeeds = deque()  # deeds to remove left of marker, not yet run this cycle
+        marked = False  # True once run through once marker seen
         deeds = self.deeds  # edit update self.deeds in place
         for i in range(len(deeds)):  # iterate once over each deed
             dog, retyme, doer = deeds.popleft()
             if not dog:  # reappend the run through once marker deed
+                marked = True
                 deeds.append((dog, retyme, doer))
             elif doer in rdoers:  # found deed to remove and close
-                rdeeds.append((dog, retyme, doer))  # add to removal deque
+                if marked:
+                    rdeeds.append((dog, retyme, doer))  # add to removal deque
+                else:
+                    ldeeds.append((dog, retyme, doer))  # entered after marked ones
             else:  # keep deed do not remove and close
                 deeds.append((dog, retyme, doer))  # reappend
+        rdeeds.extend(ldeeds)  # so exit closes in reverse enter order
 
         for doer in rdoers:  # update .doers to remove rdoers
             self.doers.remove(doer)
@@ -1408,15 +1415,22 @@ class DoDoer(Doer):
         """
         rdoers = [doer for doer in doers if doer in self.doers] # ensure in .doers
         rdeeds = deque()  # fresh deque for deeds to remove
+        ldeeds = deque()  # deeds to remove left of marker, not yet run this cycle
+        marked = False  # True once run through once marker seen
         deeds = self.deeds  # edit update self.deeds in place
         for i in range(len(deeds)):  # iterate once over each deed
             dog, retyme, doer = deeds.popleft()
             if not dog:  # reappend the run through once marker deed
+                marked = True
                 deeds.append((dog, retyme, doer))
             elif doer in rdoers:  # found deed to remove and close
-                rdeeds.append((dog, retyme, doer))  # add to removal deque
+                if marked:
+                    rdeeds.append((dog, retyme, doer))  # add to removal deque
+                else:
+                    ldeeds.append((dog, retyme, doer))  # entered after marked ones
             else:  # keep deed do not remove and close
                 deeds.append((dog, retyme, doer))  # reappend
+        rdeeds.extend(ldeeds)  # so exit closes in reverse enter order
 
         for doer in rdoers:  # update .doers to remove rdoers
             self.doers.remove(doer)
